@@ -127,6 +127,111 @@ theorem floatDone_inFlow (shapes0 : List Shape) (r : LayoutResult) (f : OFrag) (
     rw [← h.1.1]
     simp
 
+theorem substAbs_inFlow_of_notPh (res : List (Nat × OFrag)) (f : OFrag) (h : f.isPh = false) :
+    (substAbs res f).inFlow = f.inFlow := by
+  cases f with
+  | para _ _ _ _ _ _ _ => rfl
+  | block _ _ _ _ _ _ => rfl
+  | ph _ _ _ _ => simp [OFrag.isPh] at h
+
+/-- `absolute_box_layout` (with the nested absolutely positioned boxes laid out and put in place of their
+placeholders) returns a fragment of the box itself: what `block_container_layout` returned, or that fragment
+with laid-out boxes in place of placeholders. -/
+theorem layoutAbs_frag (c : Ctx) (fuel : Nat) (box : OBox) (idx : Nat) (y : Rat) (skip : Option Resume) (w : World)
+    (f : OFrag) (h : (layoutAbs c fuel box idx y skip w).frag = some f) :
+    ∃ f0 res, (layoutBox c box idx y 0 skip false true [] { w with shapes := [], absL := [] }).frag = some f0 ∧
+      (f = f0 ∨ f = substAbs res f0) ∧ f0.isPh = false := by
+  cases fuel with
+  | zero =>
+    rw [layoutAbs] at h
+    exact ⟨f, [], h, Or.inl rfl, layoutBox_frag_isPh _ _ _ _ _ _ _ _ _ _ _ h⟩
+  | succ n =>
+    rw [layoutAbs] at h
+    simp only [Option.map_eq_some_iff] at h
+    obtain ⟨f0, hf0, rfl⟩ := h
+    exact ⟨f0, _, hf0, Or.inr rfl, layoutBox_frag_isPh _ _ _ _ _ _ _ _ _ _ _ hf0⟩
+
+theorem layoutAbs_frag_inFlow (c : Ctx) (fuel : Nat) (box : OBox) (idx : Nat) (y : Rat) (skip : Option Resume)
+    (w : World) (f : OFrag) (h : (layoutAbs c fuel box idx y skip w).frag = some f) : f.inFlow = box.inFlow := by
+  obtain ⟨f0, res, hf0, hf, hph⟩ := layoutAbs_frag c fuel box idx y skip w f h
+  rcases hf with rfl | rfl
+  · exact layoutBox_frag_inFlow _ _ _ _ _ _ _ _ _ _ _ hf0
+  · rw [substAbs_inFlow_of_notPh res f0 hph]
+    exact layoutBox_frag_inFlow _ _ _ _ _ _ _ _ _ _ _ hf0
+
+/-- The step of the loop `for child_placeholder in absolute_boxes: absolute_layout(…)` of `absolute_block`. -/
+def nestedAbsStep (c : Ctx) (fuel : Nat) (acc : World × List (Nat × OFrag)) (e : AbsEntry) :
+    World × List (Nat × OFrag) :=
+  let rn := layoutAbs c fuel e.box e.idx e.y none acc.1
+  match rn.frag with
+  | none => ({ rn.w with crash := true }, acc.2)
+  | some f =>
+    let broken : List Broken := match rn.resume with
+      | some ρ => [{ ser := e.ser, box := e.box, idx := e.idx, resume := ρ, oof := e.oof }]
+      | none => []
+    ({ rn.w with broken := rn.w.broken ++ broken }, acc.2 ++ [(e.ser, f)])
+
+theorem layoutAbs_succ (c : Ctx) (fuel : Nat) (box : OBox) (idx : Nat) (y : Rat) (skip : Option Resume) (w : World) :
+    layoutAbs c (fuel + 1) box idx y skip w =
+      (let r := layoutBox c box idx y 0 skip false true [] { w with shapes := [], absL := [] }
+       let wa := r.w.absL.foldl (nestedAbsStep c fuel) ({ r.w with absL := [] }, [])
+       { r with frag := r.frag.map (substAbs wa.2), w := { wa.1 with shapes := w.shapes, absL := w.absL } }) := by
+  rw [layoutAbs]
+  rfl
+
+/-- The nested boxes put in place of their placeholders are out of the flow. -/
+theorem nestedAbsFold_oof (c : Ctx) (fuel : Nat) (es : List AbsEntry) (acc : World × List (Nat × OFrag))
+    (h : ∀ p ∈ acc.2, p.2.inFlow = false) :
+    ∀ p ∈ (es.foldl (nestedAbsStep c fuel) acc).2, p.2.inFlow = false := by
+  induction es generalizing acc with
+  | nil => simpa using h
+  | cons e es ih =>
+    simp only [List.foldl_cons]
+    apply ih
+    unfold nestedAbsStep
+    dsimp only
+    split
+    · exact h
+    · rename_i f hf
+      intro p hp
+      simp only [List.mem_append, List.mem_singleton] at hp
+      rcases hp with hp | rfl
+      · exact h p hp
+      · simp only
+        rw [layoutAbs_frag_inFlow _ _ _ _ _ _ _ _ hf, e.oof]
+
+theorem layoutAbs_resume (c : Ctx) (fuel : Nat) (box : OBox) (idx : Nat) (y : Rat) (skip : Option Resume) (w : World) :
+    (layoutAbs c fuel box idx y skip w).resume =
+      (layoutBox c box idx y 0 skip false true [] { w with shapes := [], absL := [] }).resume := by
+  cases fuel with
+  | zero => rw [layoutAbs]
+  | succ n => rw [layoutAbs_succ]
+
+/-- The in-flow lines of an absolutely positioned box are those of its `block_container_layout`: the nested
+boxes laid out in place of their placeholders are out of its flow. -/
+theorem layoutAbs_lines (c : Ctx) (fuel : Nat) (box : OBox) (idx : Nat) (y : Rat) (skip : Option Resume) (w : World)
+    (f : OFrag) (h : (layoutAbs c fuel box idx y skip w).frag = some f) :
+    ∃ f0, (layoutBox c box idx y 0 skip false true [] { w with shapes := [], absL := [] }).frag = some f0 ∧
+      fragLines f = fragLines f0 := by
+  cases fuel with
+  | zero => rw [layoutAbs] at h; exact ⟨f, h, rfl⟩
+  | succ n =>
+    rw [layoutAbs_succ] at h
+    simp only [Option.map_eq_some_iff] at h
+    obtain ⟨f0, hf0, rfl⟩ := h
+    refine ⟨f0, hf0, ?_⟩
+    have hph := layoutBox_frag_isPh _ _ _ _ _ _ _ _ _ _ _ hf0
+    have hres := nestedAbsFold_oof c n
+      (layoutBox c box idx y 0 skip false true [] { w with shapes := [], absL := [] }).w.absL
+      ({ (layoutBox c box idx y 0 skip false true [] { w with shapes := [], absL := [] }).w with absL := [] }, [])
+      (fun p hp => by simp at hp)
+    cases f0 with
+    | para _ _ _ _ _ _ _ => simp [substAbs]
+    | block _ _ _ _ _ kids =>
+      simp only [substAbs, fragLines]
+      exact substAbsList_lines _ hres kids
+    | ph _ _ _ _ => simp [OFrag.isPh] at hph
+
 theorem contStep_oof (c : Ctx) (rootTop : Rat) (acc : World × List OFrag) (e : Broken)
     (h : ∀ g ∈ acc.2, g.inFlow = false) : ∀ g ∈ (contStep c rootTop acc e).2, g.inFlow = false := by
   unfold contStep
@@ -148,7 +253,7 @@ theorem contStep_oof (c : Ctx) (rootTop : Rat) (acc : World × List OFrag) (e : 
       simp only [List.mem_append, List.mem_singleton] at hg
       rcases hg with hg | rfl
       · exact h g hg
-      · rw [layoutBox_frag_inFlow _ _ _ _ _ _ _ _ _ _ _ hf, e.oof]
+      · rw [layoutAbs_frag_inFlow _ _ _ _ _ _ _ _ hf, e.oof]
 
 theorem contFold_oof (c : Ctx) (rootTop : Rat) (es : List Broken) (acc : World × List OFrag)
     (h : ∀ g ∈ acc.2, g.inFlow = false) : ∀ g ∈ (es.foldl (contStep c rootTop) acc).2, g.inFlow = false := by
@@ -178,7 +283,7 @@ theorem absStep_oof (c : Ctx) (acc : World × List (Nat × OFrag)) (e : AbsEntry
     rcases hp with hp | rfl
     · exact h p hp
     · simp only
-      rw [layoutBox_frag_inFlow _ _ _ _ _ _ _ _ _ _ _ hf, e.oof]
+      rw [layoutAbs_frag_inFlow _ _ _ _ _ _ _ _ hf, e.oof]
 
 theorem absFold_oof (c : Ctx) (es : List AbsEntry) (acc : World × List (Nat × OFrag))
     (h : ∀ p ∈ acc.2, p.2.inFlow = false) : ∀ p ∈ (es.foldl (absStep c) acc).2, p.2.inFlow = false := by
